@@ -225,7 +225,7 @@ def main(ck):
     pr = ck.proof('C06', extra_modules=('VtlModel.Sem.AnalyticLemmas',))
     q = ck.quick()
     drv = Driver(ck)
-    n_main = int(os.environ.get("VERIF_N", 0)) or (150 if q else 1200)
+    n_main = int(os.environ.get("VERIF_N", 0)) or (150 if q else 600)
     g = GA.AnGen(ck.rng)
     cases = []
     # every function x level and every frame shape x mode at least once (thorough: several times), then random
